@@ -38,11 +38,11 @@ Definition all_ids (g : gstate) : list ident :=
 
 Definition abs_list (g : gstate) : list (ident * option uv) := map (fun id => (id, abs g id)) (all_ids g).
 
-Definition snap_eqb (a : list (ident * option uv)) (b : list (ident * uv)) : bool :=
-  list_eqb (fun x y => ident_eqb (fst x) (fst y) && opt_eqb uv_eqb (snd x) (Some (snd y))) a b.
-
 Definition abs_same (a b : list (ident * option uv)) : bool :=
   list_eqb (fun x y => ident_eqb (fst x) (fst y) && opt_eqb uv_eqb (snd x) (snd y)) a b.
+
+Definition snap_eqb (a : list (ident * option uv)) (b : list (ident * uv)) : bool :=
+  abs_same a (map (fun y => (fst y, Some (snd y))) b).
 
 (** Every object reachable from the global state. *)
 Definition global_addr_list (g : gstate) : list addr :=
